@@ -539,17 +539,18 @@ func rulesC02(w *World, r *Report) {
 		r.Check(okGate, "C02.R3", "propagate:xff-gate", w.instrPos(putCall), "float32 gate known/all >= xFilesFactor guards the write", why)
 
 		// R4
-		var appendCall *ssa.Call
+		var appends []*ssa.Call
 		for _, c := range callsIn(prop) {
 			if cv, ok := c.(*ssa.Call); ok {
 				if bi, ok := cv.Common().Value.(*ssa.Builtin); ok && bi.Name() == "append" && strings.Contains(cv.Type().String(), "Timestamp") {
-					appendCall = cv
+					appends = append(appends, cv)
 				}
 			}
 		}
-		if appendCall == nil {
+		if len(appends) == 0 {
 			r.Violate("C02.R4", "propagate:work-list", w.pos(prop.Pos()), "propagate does not build the next level's work-list")
-		} else {
+		}
+		for _, appendCall := range appends {
 			succ, _, ok := successEdge(putCall)
 			r.Check(ok && (succ == appendCall.Block() || succ.Dominates(appendCall.Block())), "C02.R4", "propagate:stored-only", w.instrPos(appendCall), "an interval is queued for the next level only after its slot was stored", "an interval is queued for the next level although its slot may not have been stored (skipped by the xFilesFactor gate or failed)")
 			// what is appended is intervalForWrite(t) of the next archive
